@@ -1319,6 +1319,14 @@ class Interp:
             return iter(v)
         if hasattr(v, "__next__"):
             return v
+        if isinstance(v, Obj):
+            f = self.class_lookup(v.cls, "__iter__")
+            if f is not None:
+                return self.iterate(self.call(f, [v], {}))
+        if isinstance(v, NativeProxy):
+            return (self.from_native(x) for x in v.obj)
+        if v is None or isinstance(v, (int, bool, float, SInt, SBool)):
+            self.raise_("TypeError", "object is not iterable")
         raise Unsupported(f"iterate({v!r})")
 
     # ------------------------------------------------------------------ calls
@@ -1767,6 +1775,9 @@ class Interp:
         for al in st.names:
             if al.name in mod.globs:
                 v = mod.globs[al.name]
+            elif name in ("typing", "collections.abc", "typing_extensions", "types") and al.name[:1].isupper() \
+                    and al.name != "MappingProxyType":
+                v = None          # names that only ever appear in annotations
             else:
                 try:
                     v = self.import_module(name + "." + al.name)
@@ -2145,6 +2156,25 @@ class Interp:
                 acc = self.or_(acc, self.equal(k, x))
             return acc
         if isinstance(c, str):
+            return x in c
+        if isinstance(c, Obj):
+            f = self.class_lookup(c.cls, "__contains__")
+            if f is not None:
+                return self.call(f, [c, x], {})
+            f = self.class_lookup(c.cls, "__iter__")
+            if f is not None:
+                acc = False
+                for e in self.iterate(c):
+                    acc = self.or_(acc, self.equal(e, x))
+                return acc
+        if isinstance(c, GenObj):
+            acc = False
+            for e in self.iterate(c):
+                acc = self.or_(acc, self.equal(e, x))
+            return acc
+        if isinstance(c, range):
+            if isinstance(x, SInt):
+                return self.wrapb(z3.Or([x.term == i for i in c])) if len(c) else False
             return x in c
         raise Unsupported(f"in {c!r}")
 
@@ -2813,6 +2843,22 @@ def _install_deque(I):
         return l.elems.pop(0)
     dq.ns["popleft"] = meth(popleft)
     dq.ns["__len__"] = meth(lambda it, a, k: len(a[0].fields["items"].elems))
+
+    def dq_extend(it, a, k):
+        for x in list(I.iterate(a[1])):
+            I.list_append(a[0].fields["items"], x)
+    dq.ns["extend"] = meth(dq_extend)
+
+    def dq_pop(it, a, k):
+        l = a[0].fields["items"]
+        if not l.elems:
+            I.raise_("IndexError", "pop from an empty deque")
+        return l.elems.pop()
+    dq.ns["pop"] = meth(dq_pop)
+    dq.ns["appendleft"] = meth(lambda it, a, k: a[0].fields["items"].elems.insert(0, a[1]))
+    dq.ns["clear"] = meth(lambda it, a, k: a[0].fields["items"].elems.clear())
+    dq.ns["__iter__"] = meth(lambda it, a, k: GenObj(iter(list(a[0].fields["items"].elems))))
+    dq.ns["__contains__"] = meth(lambda it, a, k: I.list_contains(a[0].fields["items"], a[1]))
     m.globs["deque"] = dq
 
 
